@@ -8,6 +8,11 @@ INST_A = {"W": 4, "NP": 8, "KK": 1, "LL": 2, "BGB": 2, "NN": 2, "T": 2, "BB": 2}
 INST_B = {"W": 4, "NP": 8, "KK": 2, "LL": 2, "BGB": 2, "NN": 2, "T": 2, "BB": 2}
 INST_C = {"W": 5, "NP": 16, "KK": 1, "LL": 1, "BGB": 5, "NN": 3, "T": 5, "BB": 1}
 INST_D = {"W": 4, "NP": 8, "KK": 1, "LL": 4, "BGB": 1, "NN": 1, "T": 1, "BB": 4}
+INST_E = {"W": 6, "NP": 8, "KK": 1, "LL": 3, "BGB": 2, "NN": 2, "T": 3, "BB": 2}       # ext/rot rows only: 2^W does not divide 2N', so the model's modulus switch is coarser than the code's
+INST_C2 = {"W": 5, "NP": 16, "KK": 1, "LL": 1, "BGB": 5, "NN": 2, "T": 5, "BB": 1}      # the MachineC instance
+INST_G = {"W": 4, "NP": 16, "KK": 1, "LL": 2, "BGB": 2, "NN": 2, "T": 2, "BB": 2}
+# Replay note: with l*Bgbit = W the decomposition floors at the grid, so whole multi-step blind rotations are only replayed on instances whose model key is
+# (1, 0) (n <= 2: A, B, D, E); on C (n = 3, key 1,0,1) h_boot replays the rotation one key element at a time, re-rounding the accumulator to the grid in between.
 
 
 def mc(ctx, inst, mode, avals="{0,3,8,13}", mutant="none", expect=None, workers=None):
